@@ -48,6 +48,10 @@ def F(c: int, ret: str, args: Tuple[Any, ...], kwargs: Dict[str, Any]) -> Any:
         return [s, (s * 7 + 1) % M, s % 2 == 1]
     if ret == "dict":
         return {"a": s, "b": s % 2 == 0}
+    if ret == "str":
+        return "s%d" % (s % 97)
+    if ret == "none":
+        return None
     raise ValueError(ret)
 
 
